@@ -248,6 +248,19 @@ Theorem C20_send_time_unbounded : forall timeout slice n,
   exists sched, wx_loop sched timeout slice (Z.of_nat n) 0 0 = Some (WOk, Z.of_nat n * slice).
 Proof. exact send_time_unbounded. Qed.
 
+(* ... and holds for the flow with notes/fix_C20_4.diff (httpWrite: the same loop plus a deadline for the whole response,
+   HTTP_RESPONSE_WAIT_FACTOR x rfbMaxClientWait after its start; a writable-again select costs time too): every write of
+   a response, started [total] ms into it, ends by the deadline, whatever the peer does ... *)
+Theorem C20_send_time_bounded : forall sched timeout slice deadline len waited total,
+  0 < slice -> 0 <= total ->
+  exists r t, wxd_loop sched timeout slice deadline len waited total = Some (r, t) /\ total <= t <= Z.max total deadline.
+Proof. exact send_time_bounded. Qed.
+
+(* ... hence a whole response, however many writes it consists of, holds rfbHttpCheckFds no longer than the deadline *)
+Theorem C20_response_time_bounded : forall writes timeout slice deadline total,
+  0 < slice -> 0 <= total -> total <= response_time writes timeout slice deadline total <= Z.max total deadline.
+Proof. exact response_time_bounded. Qed.
+
 (* one response made of several writes (F20a, fixed by 394d4bb): since that commit httpd.c writes nothing more after
    the first failed rfbWriteExact of a response (httpWrite), so the number of rfbWriteExact calls that wait for a peer
    that has stopped reading is at most 1 for every page and every configuration ... *)
